@@ -39,8 +39,20 @@ structure Expect where
   cols : List ExpCol
   idxs : List (String × List String × Bool × String)
   renames : List (String × String)
+  fks : List FkSpec := []
+
+def decodeFks : List SExp → Option (List FkSpec)
+  | [] => some []
+  | .list [.atom "fk", .atom n, .atom c, .atom rt, .atom rc] :: rest => do
+    let r ← decodeFks rest
+    some ({ name := n, col := c, refT := rt, refC := rc } :: r)
+  | _ => none
 
 def decodeExpect : SExp → Option Expect
+  | .list [.atom "expect", tb, cols, idxs, rens, .list fks] => do
+    let e ← decodeExpect (.list [.atom "expect", tb, cols, idxs, rens])
+    let f ← decodeFks fks
+    some { e with fks := f }
   | .list [.atom "expect", .atom tb, .list cols, .list idxs, .list rens] => do
     let cs ← cols.mapM fun c => match c with
       | .list [.atom "col", .atom n, .atom t, os, pk] => do
@@ -77,9 +89,10 @@ def quotedSegments (q : Char) (s : List Char) : List (List Char) :=
 /-- C06 predicate: the DDL the builder printed describes exactly the schema the documented conventions give -/
 def structSpec (g : Globals) (exp : Expect) (ddl : String) : Check := do
   let stmts ← parseImpl g "the DDL of AddTable" ddl
-  let db ← match execAll true [] stmts with
+  -- referential checks off: the table a foreign key refers to belongs to another model of the same call
+  let db ← match execAll false [] stmts with
     | some d => pure d
-    | none => throw s!"the DDL of AddTable is not a well-formed script (statement #{(firstIllFormed true [] stmts).getD 0})"
+    | none => throw s!"the DDL of AddTable is not a well-formed script (statement #{(firstIllFormed false [] stmts).getD 0})"
   match db with
   | [t] =>
     check (t.name == exp.table) s!"table is named {t.name}, expected {exp.table}"
@@ -97,25 +110,38 @@ def structSpec (g : Globals) (exp : Expect) (ddl : String) : Check := do
     check (exp.idxs.all (fun (n, _, _, u) => gotUsing.contains (n, u))) s!"index types {repr gotUsing}, expected {repr (exp.idxs.map (fun (n, _, _, u) => (n, u)))}"
     let gotRen := stmts.filterMap (fun s => match s with | .renameColumn _ o n => some (o, n) | _ => none)
     check (permEq gotRen exp.renames) s!"renames {repr gotRen}, expected {repr exp.renames}"
+    check (permEq t.fks exp.fks) s!"foreign keys {repr t.fks}, expected {repr exp.fks}"
   | _ => throw s!"AddTable describes {db.length} tables"
 
-/-- (case id struct cfg (bcfg comment plural) decl expect ddl ddlFlip load dump hash) -/
-def structHandler : Handler
-  | [cfg, .list [.atom "bcfg", cm, pl], decl, expect, ddl, ddlFlip, load, dump, hash] => do
+/-- (case id struct cfg (bcfg comment plural) decl expect ddl ddlFlip load dump hash extra);
+    `extra` = `()` or `((childFirst b) parentDecl)`: another model loaded by the same `FromObjects` call -/
+def structHandler10 : Handler
+  | [cfg, .list [.atom "bcfg", cm, pl], decl, expect, ddl, ddlFlip, load, dump, hash, .list extra] => do
     let g ← decodeCfg cfg
     let cm ← cm.bool?; let pl ← pl.bool?
     let d ← decodeDecl decl
     let exp ← decodeExpect expect
     let ddl ← ddl.str?; let ddlFlip ← ddlFlip.str?; let load ← load.str?; let dump ← dump.str?; let hash ← hash.str?
-    let bc : Cfg := { dialect := g.dialect, lower := g.lower, generateComment := cm, plural := pl, tables := [(d.typeName, tableName { dialect := g.dialect, plural := pl } d)] }
+    let (childFirst, parents) ← (match extra with
+      | [] => some (true, [])
+      | [.list [.atom "childFirst", b], pd] => do
+        let b ← b.bool?; let p ← decodeDecl pd
+        some (b, [p])
+      | _ => none : Option (Bool × List Decl))
+    let nameCfg : Cfg := { dialect := g.dialect, plural := pl }
+    -- `FromObjects` registers the table name of every model of the call before it builds the first DDL
+    let bc : Cfg := { dialect := g.dialect, lower := g.lower, generateComment := cm, plural := pl,
+                      tables := (d :: parents).map (fun x => (x.typeName, tableName nameCfg x)) }
     let mddl := addTable bc d
     let mflip := addTable { bc with lower := !bc.lower } d
+    let order := if childFirst then d :: parents else parents ++ [d]
     -- the struct route continues through the dialect's reader: model it on the statements of the model's DDL
     let viaReader : M (String × String) := do
-      let stmts ← (match Grammar.parseScript g.dialect mddl with
-        | .ok s => pure s
-        | .error e => .error ("PARSE: " ++ e) : M (List Stmt))
-      let m ← readScript g {} (stmts.map (Atoms.canonStmt g.dialect))
+      let m ← order.foldlM (fun (m : Migration) (x : Decl) => do
+        let stmts ← (match Grammar.parseScript g.dialect (addTable bc x) with
+          | .ok s => pure s
+          | .error e => .error ("PARSE: " ++ e) : M (List Stmt))
+        readScript g m (stmts.map (Atoms.canonStmt g.dialect))) {}
       let h ← m.hashValue g
       let (_, out) ← m.migrationUp g
       let text ← renderMigration g out
@@ -129,11 +155,23 @@ def structHandler : Handler
       if isPanic ddl then throw s!"AddTable panicked: {ddl}"
       structSpec g exp ddl
       check (load == "ok") s!"FromObjects does not load the generated DDL: {load}"
+      -- what FromObjects loaded (all models of the call), printed back: the foreign keys of this model's table
+      if g.dialect == .mysql && !isPanic dump then do
+        let ds ← parseImpl g "StringUp after FromObjects" dump
+        let got := ds.filterMap (fun s => match s with
+          | .addFk t n c rt rc => if t == exp.table then some ({ name := n, col := c, refT := rt, refC := rc } : FkSpec) else none
+          | _ => none)
+        check (permEq got exp.fks) s!"FromObjects loaded the foreign keys {repr got}, expected {repr exp.fks}"
     let r10 : Check := do
       check (toLowerAscii ddl == toLowerAscii ddlFlip) "the two keyword-case options differ by more than ASCII case"
       let q := Grammar.quoteOf g.dialect
       check (quotedSegments q ddl.toList == quotedSegments q ddlFlip.toList) "an identifier, string literal or comment differs between the two keyword-case options"
     some (corr.and ((judge "C06" (Scope.c06 g d) r06).and (judge "C10" (Scope.c06 g d) r10)))
   | _ => none
+
+def structHandler : Handler
+  | [cfg, bcfg, decl, expect, ddl, ddlFlip, load, dump, hash] =>
+    structHandler10 [cfg, bcfg, decl, expect, ddl, ddlFlip, load, dump, hash, .list []]
+  | args => structHandler10 args
 
 end Sqlize.Driver
